@@ -325,6 +325,280 @@ example : rnd32 ((-(pow2 (-25))) / 2 + 1 / 2) = 1 / 2 ∧
     |rnd32 ((-(pow2 (-25))) / 2 + 1 / 2) - ((-(pow2 (-25))) / 2 + 1 / 2)| = pow2 (-26) := by
   refine ⟨by decide +kernel, by decide +kernel⟩
 
+/-! ## Strengthening round: `relu_upper_bound` / `is_quantized_clip`, `use_sigmoid`, and the
+       module-level surrogate switch `set_internal_sigmoid` -/
+
+/-! ### quantized_relu with every option -/
+
+/-- monotone for every option combination, plain and leaky -/
+theorem C02_reluU_mono (t : Tie) (c : ReluCfg) {x y : ℚ} (hxy : x ≤ y) :
+    qreluU t c x ≤ qreluU t c y := by
+  unfold qreluU
+  apply clampTo_mono
+  cases h : c.slopeLog with
+  | none => exact C02_relu_mono t c h hxy
+  | some s => exact C02_relu_leaky_mono t c s h hxy
+
+/-- above the range the output is the end code, clamped by an active upper bound -/
+theorem C02_reluU_saturate_hi (t : Tie) (c : ReluCfg) (h : c.slopeLog = none) (x : ℚ)
+    (h2 : (c.hi : ℚ) * c.step ≤ x) : qreluU t c x = clampTo c.clamp ((c.hi : ℚ) * c.step) := by
+  unfold qreluU; rw [C02_relu_saturate_hi t c h x h2]
+
+/-- … and an upper bound at or ABOVE the largest code leaves the end code: inputs above the range
+    are sent to the largest code, never beyond -/
+theorem C02_reluU_saturate_hi_top (t : Tie) (c : ReluCfg) (h : c.slopeLog = none) (x : ℚ)
+    (h2 : (c.hi : ℚ) * c.step ≤ x) (hc : ∀ u, c.clamp = some u → (c.hi : ℚ) * c.step ≤ u) :
+    qreluU t c x = (c.hi : ℚ) * c.step := by
+  rw [C02_reluU_saturate_hi t c h x h2]
+  cases hcl : c.clamp with
+  | none => rfl
+  | some u => exact clampTo_of_le (hc u hcl)
+
+/-- nearest code of the float activation `x_u` (`ReluCfg.act`: the ReLU, bounded by the quantized
+    range under `is_quantized_clip`, else by `relu_upper_bound`), for every truthy bound -/
+theorem C02_reluU_nearest (t : Tie) (c : ReluCfg) (h : c.slopeLog = none)
+    (hz : c.qclip = true ∨ c.upper ≠ some 0) (x : ℚ) (h0 : 0 ≤ x)
+    (ha : c.act x ≤ (c.hi : ℚ) * c.step) : |qreluU t c x - c.act x| ≤ c.step / 2 := by
+  have hsp := c.step_pos
+  have hlr : c.lrelu x = x := by unfold ReluCfg.lrelu; rw [if_neg (not_lt.mpr h0)]
+  have near : x ≤ (c.hi : ℚ) * c.step → |qrelu t c x - x| ≤ c.step / 2 :=
+    fun hx => C02_relu_nearest t c h x h0 hx
+  have sat : (c.hi : ℚ) * c.step ≤ x → qrelu t c x = (c.hi : ℚ) * c.step :=
+    fun hx => C02_relu_saturate_hi t c h x hx
+  cases hq : c.qclip with
+  | true =>
+    rw [qreluU_of_clamp_none t (ReluCfg.clamp_of_qclip hq)]
+    unfold ReluCfg.act
+    rw [hq, if_pos rfl, hlr]
+    split
+    · rename_i hx; exact near hx
+    · rename_i hx; push Not at hx
+      rw [sat hx.le, sub_self, abs_zero]; linarith
+  | false =>
+    cases hu : c.upper with
+    | none =>
+      rw [qreluU_of_clamp_none t (ReluCfg.clamp_of_no_upper hu)]
+      have hact : c.act x = x := by unfold ReluCfg.act; simp [hq, hu, hlr]
+      rw [hact] at ha ⊢
+      exact near ha
+    | some u =>
+      have hu0 : u ≠ 0 := by
+        rcases hz with hz | hz
+        · rw [hq] at hz; cases hz
+        · intro h0'; apply hz; rw [hu, h0']
+      have hcl : c.clamp = some u := by
+        unfold ReluCfg.clamp; simp [hq, hu, hu0]
+      have hact : c.act x = if x ≤ u then x else u := by
+        unfold ReluCfg.act; simp [hq, hu, hlr]
+      rw [hact] at ha ⊢
+      unfold qreluU
+      rw [hcl]
+      unfold clampTo
+      simp only
+      by_cases hxu : x ≤ u
+      · rw [if_pos hxu] at ha ⊢
+        have := abs_le.mp (near ha)
+        split
+        · exact near ha
+        · rename_i hqu; push Not at hqu
+          rw [abs_le]; constructor <;> linarith
+      · rw [if_neg hxu] at ha ⊢
+        push Not at hxu
+        by_cases hxt : x ≤ (c.hi : ℚ) * c.step
+        · have := abs_le.mp (near hxt)
+          split
+          · rw [abs_le]; constructor <;> linarith
+          · rw [sub_self, abs_zero]; linarith
+        · push Not at hxt
+          rw [sat hxt.le]
+          split
+          · rw [abs_le]; constructor <;> linarith
+          · rw [sub_self, abs_zero]; linarith
+
+/-- idempotent for every on-grid (or inactive) upper bound -/
+theorem C02_reluU_idem (t : Tie) (c : ReluCfg) (h : c.slopeLog = none)
+    (hc : ∀ u, c.clamp = some u → ∃ j : ℤ, 0 ≤ j ∧ u = (j : ℚ) * c.step) (x : ℚ) :
+    qreluU t c (qreluU t c x) = qreluU t c x := by
+  obtain ⟨k, h1, h2, hk⟩ := qreluU_plain_lattice t c h hc x
+  have hfix : qrelu t c ((k : ℚ) * c.step) = (k : ℚ) * c.step := by
+    rw [qrelu_plain_eq_sq t c h]; exact sq_code t c.step_pos h1 h2
+  rw [hk]
+  unfold qreluU
+  rw [hfix]
+  cases hcl : c.clamp with
+  | none => rfl
+  | some u =>
+    apply clampTo_of_le
+    rw [← hk]; unfold qreluU; rw [hcl]; exact clampTo_le_bound u _
+
+/-- COUNTEREXAMPLE (known finding C02-relu-upper-zero): `relu_upper_bound = 0.0` bounds the float
+    activation (`is not None`) but not the quantized value (truthiness): `quantized_relu(3, 0,
+    is_quantized_clip=False, relu_upper_bound=0.0)(1)`: activation `0`, output `7/8` -/
+theorem C02_reluU_zero_bound_counterexample :
+    let c : ReluCfg := { bits := 3, integer := 0, slopeLog := none, upper := some 0, qclip := false }
+    c.act 1 = 0 ∧ qreluU .even c 1 = 7/8 ∧ c.step = 1/8 := by
+  refine ⟨by decide +kernel, by decide +kernel, by decide +kernel⟩
+
+/-- COUNTEREXAMPLE (known finding C02-relu-upper-offgrid-idem): an off-grid bound is emitted as is
+    and re-quantized to a code: `quantized_relu(4,1,is_quantized_clip=False,relu_upper_bound=1.3)`:
+    `q(2) = 1.3`, `q(1.3) = 1.25` -/
+theorem C02_reluU_offgrid_idem_counterexample :
+    let c : ReluCfg := { bits := 4, integer := 1, slopeLog := none, upper := some (13/10), qclip := false }
+    qreluU .even c 2 = 13/10 ∧ qreluU .even c (13/10) = 5/4 := by
+  refine ⟨by decide +kernel, by decide +kernel⟩
+
+/-! ### quantized_relu(use_sigmoid=1) -/
+
+/-- monotone in the surrogate value, plain and leaky, with every upper-bound option -/
+theorem C02_reluSig_mono (t : Tie) (c : ReluCfg) {s s' : ℚ} (h : s ≤ s') :
+    qreluSigU t c s ≤ qreluSigU t c s' := by
+  unfold qreluSigU
+  apply clampTo_mono
+  have hm : (0 : ℚ) < (twoPow c.nsb : ℚ) := by rw [twoPow_eq_tp]; exact_mod_cast tp_pos _
+  have hone : (1 : ℚ) ≤ (twoPow c.nsb : ℚ) := by rw [twoPow_eq_tp]; exact_mod_cast tp_ge_one _
+  have hpi := pow2_pos c.integer
+  have hinv : (1 : ℚ) / (twoPow c.nsb : ℚ) ≤ 1 := by rw [div_le_one hm]; exact hone
+  have hpos : pow2 c.integer * rclip (2 * ((roundTie t (s * (twoPow c.nsb : ℚ)) : ℚ) / (twoPow c.nsb : ℚ)) - 1)
+        0 (1 - 1 / (twoPow c.nsb : ℚ))
+      ≤ pow2 c.integer * rclip (2 * ((roundTie t (s' * (twoPow c.nsb : ℚ)) : ℚ) / (twoPow c.nsb : ℚ)) - 1)
+        0 (1 - 1 / (twoPow c.nsb : ℚ)) := by
+    apply mul_le_mul_of_nonneg_left _ hpi.le
+    apply rclip_mono _ (by linarith)
+    have : ((roundTie t (s * (twoPow c.nsb : ℚ)) : ℤ) : ℚ) ≤ ((roundTie t (s' * (twoPow c.nsb : ℚ)) : ℤ) : ℚ) := by
+      exact_mod_cast roundTie_mono t (mul_le_mul_of_nonneg_right h hm.le)
+    have := div_le_div_of_nonneg_right this hm.le
+    linarith
+  unfold qreluSigP
+  simp only
+  cases hsl : c.slopeLog with
+  | none => simpa using hpos
+  | some k =>
+    simp only
+    have hslope : 0 < c.slope := by simp only [ReluCfg.slope, hsl]; exact pow2_pos _
+    have hsm : 0 < c.slope * (twoPow c.nsb : ℚ) := mul_pos hslope hm
+    have hneg : rclip (2 * ((roundTie t (s * (twoPow c.nsb : ℚ) * c.slope) : ℚ) / (c.slope * (twoPow c.nsb : ℚ))) - 1)
+          (-1) 0
+        ≤ rclip (2 * ((roundTie t (s' * (twoPow c.nsb : ℚ) * c.slope) : ℚ) / (c.slope * (twoPow c.nsb : ℚ))) - 1)
+          (-1) 0 := by
+      apply rclip_mono _ (by norm_num)
+      have : ((roundTie t (s * (twoPow c.nsb : ℚ) * c.slope) : ℤ) : ℚ)
+          ≤ ((roundTie t (s' * (twoPow c.nsb : ℚ) * c.slope) : ℤ) : ℚ) := by
+        exact_mod_cast roundTie_mono t
+          (mul_le_mul_of_nonneg_right (mul_le_mul_of_nonneg_right h hm.le) hslope.le)
+      have := div_le_div_of_nonneg_right this hsm.le
+      linarith
+    have hk : 0 ≤ pow2 c.integer * c.slope := by positivity
+    have := mul_le_mul_of_nonneg_left hneg hk
+    linarith
+
+/-- PARTIAL: `use_sigmoid=1` rounds `sigma·m` and doubles afterwards, so inside the range the output
+    is within ONE step (not half a step) of the activation `m_i · (2·sigma − 1)` -/
+theorem C02_reluSig_within_step_partial (t : Tie) (c : ReluCfg) (h : c.slopeLog = none) (hn : 0 ≤ c.nsb)
+    (s : ℚ) (h1 : 0 ≤ 2 * s - 1) (h2 : 2 * s - 1 ≤ 1 - 1 / ((tp c.nsb : ℤ) : ℚ)) :
+    |qreluSigP t c s - pow2 c.integer * (2 * s - 1)| ≤ c.step := by
+  have hm := c.m_step hn
+  have hmpos : (0 : ℚ) < ((tp c.nsb : ℤ) : ℚ) := by exact_mod_cast tp_pos _
+  have hpi := pow2_pos c.integer
+  unfold qreluSigP
+  simp only [h, twoPow_eq_tp]
+  have e := roundTie_err t (s * ((tp c.nsb : ℤ) : ℚ))
+  generalize roundTie t (s * ((tp c.nsb : ℤ) : ℚ)) = r at e
+  have hd := rclip_dist (v := 2 * ((r : ℚ) / ((tp c.nsb : ℤ) : ℚ)) - 1) h1 h2
+  have hv : |2 * ((r : ℚ) / ((tp c.nsb : ℤ) : ℚ)) - 1 - (2 * s - 1)| ≤ 1 / ((tp c.nsb : ℤ) : ℚ) := by
+    have : 2 * ((r : ℚ) / ((tp c.nsb : ℤ) : ℚ)) - 1 - (2 * s - 1)
+        = 2 * ((r : ℚ) - s * ((tp c.nsb : ℤ) : ℚ)) / ((tp c.nsb : ℤ) : ℚ) := by field_simp; ring
+    rw [this, abs_div, abs_of_pos hmpos, div_le_div_iff_of_pos_right hmpos, abs_mul]
+    norm_num; linarith
+  rw [← mul_sub, abs_mul, abs_of_pos hpi]
+  calc pow2 c.integer * |rclip (2 * ((r : ℚ) / ((tp c.nsb : ℤ) : ℚ)) - 1) 0 (1 - 1 / ((tp c.nsb : ℤ) : ℚ)) - (2 * s - 1)|
+      ≤ pow2 c.integer * (1 / ((tp c.nsb : ℤ) : ℚ)) :=
+        mul_le_mul_of_nonneg_left (le_trans hd hv) hpi.le
+    _ = c.step := by rw [← hm]; field_simp
+
+/-- COUNTEREXAMPLE (known finding C02-relu-use-sigmoid-two-step-grid): half a step is not met:
+    `quantized_relu(2, 0, use_sigmoid=1)` at surrogate value `39/64`: activation `7/32`, output `0`,
+    step `1/4` -/
+theorem C02_reluSig_half_step_counterexample :
+    let c : ReluCfg := { bits := 2, integer := 0, slopeLog := none }
+    qreluSigP .even c (39/64) = 0 ∧ pow2 c.integer * (2 * (39/64 : ℚ) - 1) = 7/32 ∧ c.step = 1/4 := by
+  refine ⟨by decide +kernel, by decide +kernel, by decide +kernel⟩
+
+/-! ### the surrogate switch: the mode in force when the quantizer is CALLED -/
+
+theorem C02_smoothSigmoid_mono {x y : ℚ} (h : x ≤ y) : smoothSigmoid x ≤ smoothSigmoid y := by
+  unfold smoothSigmoid
+  simp only
+  split <;> split <;> (try split) <;> (try split) <;> linarith
+
+/-- every internal sigmoid is monotone (the real one by assumption on the oracle `σ`) -/
+theorem C02_internalSigmoid_mono (σ : ℚ → ℚ) (hσ : ∀ x y, x ≤ y → σ x ≤ σ y) (m : SigMode) {x y : ℚ}
+    (h : x ≤ y) : internalSigmoid σ m x ≤ internalSigmoid σ m y := by
+  cases m
+  · exact C02_hardSigmoid_mono h
+  · exact C02_smoothSigmoid_mono h
+  · exact hσ x y h
+
+/-- `quantized_sigmoid`, `quantized_tanh` and `quantized_relu(use_sigmoid=1)` are monotone in the
+    INPUT under every mode -/
+theorem C02_sigmoidX_mono (t : Tie) (bits : ℤ) (sym : Bool) (σ : ℚ → ℚ) (hσ : ∀ x y, x ≤ y → σ x ≤ σ y)
+    (m : SigMode) {x y : ℚ} (h : x ≤ y) :
+    qsigmoidX t bits sym σ m x ≤ qsigmoidX t bits sym σ m y :=
+  C02_sigmoid_mono t bits sym (C02_internalSigmoid_mono σ hσ m h)
+
+theorem C02_tanhX_mono (t : Tie) (bits : ℤ) (sym : Bool) (σ : ℚ → ℚ) (hσ : ∀ x y, x ≤ y → σ x ≤ σ y)
+    (m : SigMode) {x y : ℚ} (h : x ≤ y) :
+    qtanhX t bits sym σ m x ≤ qtanhX t bits sym σ m y := by
+  apply C02_tanh_mono
+  have := C02_internalSigmoid_mono σ hσ m h
+  linarith
+
+theorem C02_reluSigX_mono (t : Tie) (c : ReluCfg) (σ : ℚ → ℚ) (hσ : ∀ x y, x ≤ y → σ x ≤ σ y)
+    (m : SigMode) {x y : ℚ} (h : x ≤ y) : qreluSigX t c σ m x ≤ qreluSigX t c σ m y := by
+  apply C02_reluSig_mono
+  apply C02_internalSigmoid_mono σ hσ m
+  exact div_le_div_of_nonneg_right h (pow2_pos _).le
+
+/-- nearest code of the surrogate of the CALL-time mode -/
+theorem C02_sigmoidX_nearest (t : Tie) (bits : ℤ) (sym : Bool) (σ : ℚ → ℚ) (m : SigMode) (x : ℚ)
+    (h1 : (if sym then 1 else 0) / (tp bits : ℚ) ≤ internalSigmoid σ m x)
+    (h2 : internalSigmoid σ m x ≤ 1 - 1 / (tp bits : ℚ)) :
+    |qsigmoidX t bits sym σ m x - internalSigmoid σ m x| ≤ 1 / (2 * (tp bits : ℚ)) :=
+  C02_sigmoid_nearest t bits sym _ h1 h2
+
+/-- constructing quantizer objects at any point of a session changes no output: nothing of the mode
+    is captured at construction time -/
+theorem C02_session_construct_irrelevant (σ : ℚ → ℚ) (q : ℚ → ℚ) (m : SigMode) (es : List SigEv) :
+    runSession σ q m (es.filter fun e => match e with | .construct => false | _ => true)
+      = runSession σ q m es := by
+  induction es generalizing m with
+  | nil => rfl
+  | cons e es ih =>
+    cases e with
+    | setMode m' => simp [List.filter, runSession, ih]
+    | construct => simp [List.filter, runSession, ih]
+    | call x => simp [List.filter, runSession, ih]
+
+/-- a call that follows `set_internal_sigmoid(m')` uses the surrogate of `m'`, whatever happened
+    before (in particular whichever mode was active when the quantizer was constructed) -/
+theorem C02_session_call_after_set (σ : ℚ → ℚ) (q : ℚ → ℚ) (m m' : SigMode) (es : List SigEv) (x : ℚ) :
+    runSession σ q m (es ++ [.setMode m', .call x])
+      = runSession σ q m es ++ [q (internalSigmoid σ m' x)] := by
+  induction es generalizing m with
+  | nil => simp [runSession]
+  | cons e es ih =>
+    cases e with
+    | setMode m'' => simp [runSession, ih]
+    | construct => simp [runSession, ih]
+    | call y => simp [runSession, ih]
+
+/-- the order matters: a quantizer that kept the surrogate of its construction-time mode would differ —
+    `quantized_sigmoid(2)` at `x = −1.98`: hard surrogate ↦ `0`, smooth surrogate ↦ `1/4` -/
+theorem C02_stale_mode_counterexample (σ : ℚ → ℚ) :
+    qsigmoidX .even 2 false σ .hard (-99/50) = 0 ∧ qsigmoidX .even 2 false σ .smooth (-99/50) = 1/4 := by
+  have h1 : qsigmoidP .even 2 false (hardSigmoid (-99/50)) = 0 := by decide +kernel
+  have h2 : qsigmoidP .even 2 false (smoothSigmoid (-99/50)) = 1/4 := by decide +kernel
+  exact ⟨h1, h2⟩
+
 /-! ## non-vacuity -/
 
 example : let c : BitsCfg := { bits := 4, integer := 0, symmetric := false, keepNeg := true, alpha := none }
